@@ -1,5 +1,6 @@
 import Thanos.Model.ReadPath
 import Thanos.Lemmas.ReadPath
+import Thanos.Lemmas.FirstFit
 import Thanos.Generated.Facts
 /-
   C04 — Deduplicated queries return each logical series once with replica data.
@@ -165,6 +166,235 @@ theorem C04_select_refines (l : RSeries) (qmint qmaxt : Int)
     exact hne (List.Perm.eq_nil (hperm.symm))
   obtain ⟨it, hit, hg⟩ := foldIts_good ps hpsne h4
   simp only [h1, hit, drainChecked_goodN hg, h2]
+
+/-! ### the partial property for a query range that covers the series -/
+
+/-- two chunks of one replica with disjoint cuts: equal, or one entirely before the other -/
+theorem disjoint_pair {l : RSeries} (hdj : DisjointCuts l) {r : RReplica} (hr : r ∈ l.reps)
+    {c d : RChunk} (hc : c ∈ r.chunks) (hd : d ∈ r.chunks) :
+    c.samples = d.samples ∨ c.maxt < d.mint ∨ d.maxt < c.mint := by
+  have hp := hdj r hr
+  apply List.Pairwise.forall_of_forall_of_flip (R := fun c d =>
+    c.samples = d.samples ∨ c.maxt < d.mint ∨ d.maxt < c.mint) (fun x _ => Or.inl rfl) hp ?_ hc hd
+  exact hp.imp (fun h => by
+    rcases h with h | h | h
+    · exact Or.inl h.symm
+    · exact Or.inr (Or.inr h)
+    · exact Or.inr (Or.inl h))
+
+/-- **After every chunk end a chunk begins** (and one begins at the start of `S`): this is what
+    contiguous, per-replica disjoint cuts of identical replicas give the first-fit argument. -/
+theorem succ_of_replicas {l : RSeries} {S : List Sample} (hS : SSorted S)
+    (hid : IdenticalReplicas S l) (hdj : DisjointCuts l) (cs : List RChunk)
+    (hsub : ∀ c ∈ cs, c ∈ l.reps.flatMap (·.chunks))
+    (hcomp : ∀ d ∈ l.reps.flatMap (·.chunks), ∃ d' ∈ cs, d'.samples = d.samples) :
+    ∀ P Q, S = P ++ Q → Q ≠ [] → (P = [] ∨ ∃ c ∈ cs, c.samples <:+ P) →
+      ∃ d ∈ cs, d.samples ≠ [] ∧ d.samples <+: Q := by
+  intro P Q hPQ hQ hbd
+  obtain ⟨y, Q', rfl⟩ : ∃ y Q', Q = y :: Q' := by
+    cases Q with
+    | nil => exact absurd rfl hQ
+    | cons y Q' => exact ⟨y, Q', rfl⟩
+  have hyS : y ∈ S := by rw [hPQ]; simp
+  have hSs : SSorted (P ++ y :: Q') := by rw [← hPQ]; exact hS
+  -- the replica to look at, and (if P ≠ []) its chunk c that ends P
+  have hrep : ∃ r ∈ l.reps, (P = [] ∨ ∃ c ∈ r.chunks, c.samples ≠ [] ∧ c.samples <:+ P) := by
+    rcases hbd with hP | ⟨c, hc, hcP⟩
+    · obtain ⟨r, hr⟩ : ∃ r, r ∈ l.reps := by
+        cases hreps : l.reps with
+        | nil => exact absurd hreps hid.1
+        | cons r _ => exact ⟨r, by simp⟩
+      exact ⟨r, hr, Or.inl hP⟩
+    · obtain ⟨r, hr, hcr⟩ := List.mem_flatMap.mp (hsub c hc)
+      exact ⟨r, hr, Or.inr ⟨c, hcr, ((hid.2 r hr).1 c hcr).1, hcP⟩⟩
+  obtain ⟨r, hr, hrc⟩ := hrep
+  obtain ⟨d, hd, hyd⟩ := (hid.2 r hr).2 y hyS
+  obtain ⟨hdne, hdinf⟩ := (hid.2 r hr).1 d hd
+  obtain ⟨z, dr, hz⟩ : ∃ z dr, d.samples = z :: dr := by
+    cases hds : d.samples with
+    | nil => exact absurd hds hdne
+    | cons z dr => exact ⟨z, dr, rfl⟩
+  -- d starts after P
+  have hafter : ∀ a ∈ P, a.t < z.t := by
+    intro a ha
+    refine Classical.byContradiction fun hcon => ?_
+    have hza : z.t ≤ a.t := by omega
+    rcases hrc with hP | ⟨c, hcr, hcne, hcP⟩
+    · rw [hP] at ha; simp at ha
+    · -- w = the last sample of P = the last sample of c
+      obtain ⟨cx, cr, hcx⟩ : ∃ cx cr, c.samples = cx :: cr := by
+        cases hcs : c.samples with
+        | nil => exact absurd hcs hcne
+        | cons cx cr => exact ⟨cx, cr, rfl⟩
+      have hlast : (cx :: cr).getLast? = some (cr.getLast?.getD cx) := getLast?_cons_getD cr cx
+      let w := cr.getLast?.getD cx
+      have hwc : w ∈ c.samples := by rw [hcx]; exact List.mem_of_getLast? hlast
+      have hwP : w ∈ P := hcP.subset hwc
+      have hPs : SSorted P := List.Pairwise.sublist (List.sublist_append_left P _) hSs
+      -- a ≤ w
+      have haw : a.t ≤ w.t := by
+        obtain ⟨p0, hp0⟩ := hcP
+        rw [← hp0, hcx] at ha hPs
+        rcases List.mem_append.mp ha with ha | ha
+        · have := ssorted_append_lt hPs a ha w (List.mem_of_getLast? hlast)
+          omega
+        · exact le_lastOf (List.Pairwise.sublist (List.sublist_append_right p0 _) hPs) a ha
+      have hwy : w.t < y.t := ssorted_append_lt hSs w hwP y (by simp)
+      have hwS : w ∈ S := by rw [hPQ]; exact List.mem_append_left _ hwP
+      have hwd : w ∈ d.samples := infix_contig hS hdinf (z := z) (y := y) (by rw [hz]; simp) hyd hwS
+        (by omega) (by omega)
+      have hcinf := ((hid.2 r hr).1 c hcr).2
+      rcases disjoint_pair hdj hr hcr hd with h | h | h
+      · -- same samples: then y ∈ c ⊆ P, but y is in Q
+        have hyP : y ∈ P := hcP.subset (by rw [h]; exact hyd)
+        have := ssorted_append_lt hSs y hyP y (by simp)
+        omega
+      · have h1 := (mem_chunk_bounds hS hcinf hwc).2
+        have h2 := (mem_chunk_bounds hS hdinf hwd).1
+        omega
+      · have h1 := (mem_chunk_bounds hS hcinf hwc).1
+        have h2 := (mem_chunk_bounds hS hdinf hwd).2
+        omega
+  -- hence d is a cut of Q, and since it holds the head of Q, a prefix of it
+  have hdQ : d.samples <:+: y :: Q' := infix_right hz (by rw [← hPQ]; exact hdinf) hafter
+  obtain ⟨u, v, huv⟩ := hdQ
+  have hu : u = [] := by
+    cases u with
+    | nil => rfl
+    | cons y' u' =>
+      exfalso
+      have hyy : y' = y := by simp at huv; exact huv.1
+      have hQs : SSorted (y :: Q') := List.Pairwise.sublist (List.sublist_append_right P _) hSs
+      rw [← huv] at hQs
+      have : SSorted ((y' :: u') ++ (d.samples ++ v)) := by simpa using hQs
+      have := ssorted_append_lt this y' (by simp) y (List.mem_append_left _ hyd)
+      rw [hyy] at this
+      omega
+  subst hu
+  obtain ⟨d', hd', hds'⟩ := hcomp d (List.mem_flatMap.mpr ⟨r, hr, hd⟩)
+  refine ⟨d', hd', by rw [hds']; exact hdne, ?_⟩
+  rw [hds']
+  exact ⟨v, by simpa using huv⟩
+
+/-- **C04, dedup on, the part that holds** (for a query range that covers the series).  Every
+    replica holds the same samples `S`, cut into chunks in any way and placed on any stores, but
+    without time-overlapping chunks *inside* a replica: the deduplicated query returns exactly `S`.
+    (Route: the querier side is the pure fold `C04_select_refines`; row 0 of first-fit is gap-free
+    and equals `S` (`firstFit_row0`); every other row is a sub-sequence of `S`; the penalty merge
+    of `S` with sub-sequences of `S` is `S` (`pm2_sublist`).) -/
+theorem C04_dedup_on_partial_fullrange (l : RSeries) (S : List Sample) (qmint qmaxt : Int)
+    (hS : SSorted S) (hpos : ∀ x ∈ S, 1 ≤ x.t) (hSne : S ≠ [])
+    (hid : IdenticalReplicas S l) (hdj : DisjointCuts l)
+    (hrange : ∀ x ∈ S, qmint ≤ x.t ∧ x.t ≤ qmaxt) :
+    selectDedup true qmint qmaxt l = some (some S) := by
+  -- all chunks are non-empty cuts of S …
+  have hallcut : ∀ c ∈ l.reps.flatMap (·.chunks), c.samples ≠ [] ∧ c.samples <:+: S := by
+    intro c hc
+    obtain ⟨r, hr, hcr⟩ := List.mem_flatMap.mp hc
+    exact (hid.2 r hr).1 c hcr
+  -- … all of them overlap the query range, so the stores send them all
+  have hfilter : (l.reps.flatMap (·.chunks)).filter (inRange qmint qmaxt) = l.reps.flatMap (·.chunks) := by
+    apply List.filter_eq_self.mpr
+    intro c hc
+    obtain ⟨hne, hinf⟩ := hallcut c hc
+    obtain ⟨a, ha⟩ : ∃ a, a ∈ c.samples := by
+      cases hcs : c.samples with
+      | nil => exact absurd hcs hne
+      | cons a _ => exact ⟨a, by simp⟩
+    have hb := mem_chunk_bounds hS hinf ha
+    have hr := hrange a (hinf.subset ha)
+    simp only [inRange, Bool.and_eq_true, decide_eq_true_eq]
+    omega
+  have hcsdef : proxyChunks qmint qmaxt (l.reps.flatMap (·.chunks)) =
+      sortChunks (dedupContent (l.reps.flatMap (·.chunks))) := by
+    unfold proxyChunks; rw [hfilter]
+  generalize hcs : proxyChunks qmint qmaxt (l.reps.flatMap (·.chunks)) = cs at hcsdef
+  have hsub : ∀ c ∈ cs, c ∈ l.reps.flatMap (·.chunks) := by
+    intro c hc
+    rw [hcsdef] at hc
+    exact mem_dedupContent_sub (mem_sortChunks.mp hc)
+  have hcomp : ∀ d ∈ l.reps.flatMap (·.chunks), ∃ d' ∈ cs, d'.samples = d.samples := by
+    intro d hd
+    obtain ⟨d', hd', hs'⟩ := dedupContent_complete hd
+    exact ⟨d', by rw [hcsdef]; exact mem_sortChunks.mpr hd', hs'⟩
+  have hcsne : cs ≠ [] := by
+    obtain ⟨r, hr⟩ : ∃ r, r ∈ l.reps := by
+      cases hreps : l.reps with
+      | nil => exact absurd hreps hid.1
+      | cons r _ => exact ⟨r, by simp⟩
+    obtain ⟨x, hx⟩ : ∃ x, x ∈ S := by
+      cases S with
+      | nil => exact absurd rfl hSne
+      | cons x _ => exact ⟨x, by simp⟩
+    obtain ⟨d, hd, _⟩ := (hid.2 r hr).2 x hx
+    obtain ⟨d', hd', _⟩ := hcomp d (List.mem_flatMap.mpr ⟨r, hr, hd⟩)
+    intro he; rw [he] at hd'; simp at hd'
+  have hcut : ∀ c ∈ cs, c.samples ≠ [] ∧ c.samples <:+: S := fun c hc => hallcut c (hsub c hc)
+  have hsorted : cs.Pairwise (fun a b => a.mint ≤ b.mint) := by rw [hcsdef]; exact sortChunks_sorted _
+  have hsucc := succ_of_replicas hS hid hdj cs hsub hcomp
+  have hrow0 := firstFit_row0 S hS cs hcut hsorted hsucc hcsne
+  -- the querier side as a pure function
+  have href := C04_select_refines l qmint qmaxt (by rw [hcs]; exact hcsne) (by
+    rw [hcs]
+    intro c hc
+    obtain ⟨hne, hinf⟩ := hcut c hc
+    exact ⟨⟨hne, fun x hx => hpos x (hinf.subset hx)⟩, fun x hx => hrange x (hinf.subset hx)⟩)
+  rw [hcs] at href
+  rw [href]
+  congr 2
+  -- rows: row 0 and the others
+  obtain ⟨hrows, hperm⟩ := overlapSplit_partition cs
+  have hrowcut : ∀ row ∈ overlapSplit cs, ∀ c ∈ row, c.samples ≠ [] ∧ c.samples <:+: S := by
+    intro row hr c hc
+    exact hcut c (hperm.subset (List.mem_flatten.mpr ⟨row, hr, hc⟩))
+  -- on every row the union is the concatenation
+  have hunion : ∀ row ∈ overlapSplit cs, unionFrom 0 (row.map (·.samples)) = row.flatMap (·.samples) := by
+    intro row hr
+    rw [List.flatMap_def]
+    apply unionFrom_disjoint
+    · intro c' hc'
+      obtain ⟨c, hc, rfl⟩ := List.mem_map.mp hc'
+      obtain ⟨hne, hinf⟩ := hrowcut row hr c hc
+      exact ⟨hne, List.Pairwise.sublist hinf.sublist hS⟩
+    · exact rowDisjoint_of_rowOK hS row (hrows row hr).1 (hrowcut row hr)
+    · intro c' hc' x hx
+      have hc'' : c' ∈ row.map (·.samples) := List.mem_of_mem_head? hc'
+      obtain ⟨c, hc, rfl⟩ := List.mem_map.mp hc''
+      have := hpos x ((hrowcut row hr c hc).2.subset hx)
+      omega
+  cases hos : overlapSplit cs with
+  | nil =>
+    exfalso
+    rw [hos] at hperm
+    exact hcsne (List.Perm.eq_nil hperm.symm)
+  | cons row0 others =>
+    rw [hos] at hunion hrows hrowcut hrow0
+    simp only [headRow, List.head?_cons, Option.getD_some] at hrow0
+    simp only [List.map_cons, pmFoldL]
+    rw [hunion row0 (by simp), hrow0]
+    apply foldl_pm2_sublist hS (fun x hx => by have := hpos x hx; simp only [minT]; omega)
+    intro q hq
+    obtain ⟨row, hr, rfl⟩ := List.mem_map.mp hq
+    rw [hunion row (by simp [hr])]
+    exact row_sublist row S hS (hrows row (by simp [hr])).1 (hrowcut row (by simp [hr]))
+
+/-- non-vacuity: two replicas of `S = [10, 20, 30, 40, 50]` cut differently (`[10,20][30,40,50]` on
+    stores 0/1 and `[10][20,30][40,50]` on stores 1/0/2), query range `[1, 100]` -/
+def partialWitness : RSeries :=
+  { key := 0,
+    reps := [ { rid := 0, chunks := [ { store := 0, rank := 0, samples := [⟨10, 1⟩, ⟨20, 2⟩] },
+                                     { store := 1, rank := 0, samples := [⟨30, 3⟩, ⟨40, 4⟩, ⟨50, 5⟩] } ] },
+              { rid := 1, chunks := [ { store := 1, rank := 0, samples := [⟨10, 1⟩] },
+                                     { store := 0, rank := 0, samples := [⟨20, 2⟩, ⟨30, 3⟩] },
+                                     { store := 2, rank := 0, samples := [⟨40, 4⟩, ⟨50, 5⟩] } ] } ] }
+
+example : selectDedup true 1 100 partialWitness =
+    some (some [⟨10, 1⟩, ⟨20, 2⟩, ⟨30, 3⟩, ⟨40, 4⟩, ⟨50, 5⟩]) := by decide
+
+example : DisjointCuts partialWitness := by
+  intro r hr
+  simp only [partialWitness, List.mem_cons, List.mem_nil_iff, or_false] at hr
+  rcases hr with rfl | rfl <;> simp [RChunk.maxt, RChunk.mint]
 
 /-! ### F04: overlapping chunks inside a replica make the penalty window swallow samples -/
 
